@@ -38,6 +38,10 @@ type roundLog struct {
 	ownPV, ownPC        uint64
 	hasOwnPV, hasOwnPC  bool
 	prevoteTimeoutSched bool
+	// line 49's condition (first proposal of the round + quorum of precommits
+	// for its id) became true while the validator was still at a lower height,
+	// i.e. purely from buffered messages
+	commitEnabledWhileBuffered bool
 }
 
 type heightLog struct {
@@ -115,6 +119,11 @@ func (s *sim) record(nd *node, m msg) {
 		rl.pc = addVote(rl.pc, m.val, m.from)
 		rl.anyPC |= 1 << uint(m.from)
 		rl.anyM |= 1 << uint(m.from)
+	}
+	if m.h > nd.h && m.kind != kPrevote && len(rl.props) > 0 && !rl.commitEnabledWhileBuffered {
+		if v := rl.props[0].val; validVal(v) && s.c.isQuorum(m.h, s.c.maskPower(m.h, voteMask(rl.pc, v))) {
+			rl.commitEnabledWhileBuffered = true
+		}
 	}
 }
 
